@@ -75,6 +75,23 @@ func c13(r *Report) {
 			Skip:  []Check{Check{Desc: "no change for this method", Pass: IsFalse, Values: lookupOK}}})
 		// the helper's own result: tx2 error first, then errManager
 		r.ReturnsOnly("C13.helper.result", th, -1, true, txCall, Fn(dsub, "MethodManager", "Commit"))
+		// ... and never a constant nil: the last return hands out errManager, whatever it holds
+		{
+			rule := "ARG: transactionHelper has no constant-nil return (its result is the second transaction's error or, last, the Commit error)"
+			bad := ""
+			for _, b := range th.Blocks {
+				if ret, ok := b.Instrs[len(b.Instrs)-1].(*ssa.Return); ok && len(ret.Results) == 1 {
+					if c, ok := Unspill(ret.Results[0]).(*ssa.Const); ok && c.IsNil() {
+						bad = p.Pos(ret.Pos())
+					}
+				}
+			}
+			if bad != "" {
+				r.Bad("C13.helper.result-never-constant-nil", rule, bad, "a return of constant nil hides a failed Commit (the caller is told the compensated operation succeeded)")
+			} else {
+				r.OK("C13.helper.result-never-constant-nil", rule, p.Pos(th.Pos()), "no constant-nil return", true)
+			}
+		}
 	}
 
 	// (3) sweep
@@ -87,6 +104,7 @@ func c13(r *Report) {
 		r.Gate(Gate{ID: "C13.sweep.delete-only-uncommitted", Fn: cl, Effect: deleteOf("DidDocument"), Check: CallCheck(Fn(dsub, "MethodManager", "IsCommitted"), 0, IsFalse)})
 		r.Gate(Gate{ID: "C13.sweep.iscommitted-error-aborts", Fn: cl, ForEach: true, AllowEarlyExit: true /* `if !committed { break }`: one uncommitted member decides for the whole transaction (exists-semantics); the error gate is what must hold per visited element */, Effect: AnyEffect(deleteOf("DidDocument"), deleteOf("DIDChangeLog")), Check: ErrCheck(Fn(dsub, "MethodManager", "IsCommitted"))})
 		c13SweepPerTransaction(r, cl)
+		c13SweepGroupKey(r, cl)
 		c13SweepDelay(r, rb)
 	}
 
@@ -519,4 +537,34 @@ func c13CreateExistsInTx(r *Report) {
 	}
 	r.OK(key, rule, p.Pos(calls[0].Pos()), "NewDIDManager(tx).FindBySubject inside the closure", true)
 	r.Gate(Gate{ID: "C13.create.generate-only-if-absent", Fn: cl, Effect: CallEffect(p.FnOrImpl(dsub, "MethodManager", "NewDocument")), Check: CallCheck(Fn("std:errors", "", "Is"), -1, IsTrue)})
+}
+
+// c13SweepGroupKey: the sweep groups the change log by transaction id.
+func c13SweepGroupKey(r *Report, cl *ssa.Function) {
+	rule := "ARG: the sweep groups change-log rows by their TransactionID"
+	key := "C13.sweep.grouped-by-transaction-id"
+	if cl == nil {
+		r.Lost(key, rule, "sweep closure not found")
+		return
+	}
+	n := 0
+	for _, b := range cl.Blocks {
+		for _, in := range b.Instrs {
+			mu, ok := in.(*ssa.MapUpdate)
+			if !ok || !strings.Contains(mu.Map.Type().String(), "DIDChangeLog") {
+				continue
+			}
+			n++
+			if !FieldV("DIDChangeLog", "TransactionID").M(mu.Key) {
+				r.Bad(key, rule, r.P.Pos(mu.Pos()), "grouping key is "+AccessPath(mu.Key, 0))
+				return
+			}
+		}
+	}
+	r.Sites += n
+	if n == 0 {
+		r.Lost(key, rule, "no grouping map update found")
+		return
+	}
+	r.OK(key, rule, r.P.Pos(cl.Pos()), fmt.Sprintf("%d grouping update(s)", n), true)
 }
